@@ -3,7 +3,7 @@ from __future__ import annotations
 
 import warnings
 from typing import (Any, Callable, Dict, Generic, Iterable, Iterator, List, Mapping, 
-                    Optional, MutableMapping, Tuple, TypeVar, Union, Sequence, TYPE_CHECKING)
+                    Optional, MutableMapping, Set, Tuple, TypeVar, Union, Sequence, TYPE_CHECKING)
 from pydoctor import epydoc2stan
 import collections.abc
 from pydoctor import model
@@ -56,9 +56,14 @@ def overriding_subclasses(
     if not firstcall and name in classobj.contents:
         yield classobj
     else:
+        # A subclass can be reached through several of its bases: yield it once only.
+        seen: Set[model.Class] = set()
         for subclass in classobj.subclasses:
             if subclass.isVisible:
-                yield from overriding_subclasses(subclass, name, firstcall=False)
+                for overriding in overriding_subclasses(subclass, name, firstcall=False):
+                    if overriding not in seen:
+                        seen.add(overriding)
+                        yield overriding
 
 def nested_bases(classobj: model.Class) -> Iterator[Tuple[model.Class, ...]]:
     """
